@@ -106,6 +106,13 @@ impl TorrentMaps {
         let mut statistics_messages = Vec::new();
         let mut opt_scrape_export_writer = if export_full_scrape {
             match File::create(config.scrape_exports.tmp_path()) {
+                #[cfg(feature = "verif")]
+                Ok(file) => {
+                    aquatic_common::verif_fault_basic!("udp.export.created");
+
+                    Some(BufWriter::new(file))
+                }
+                #[cfg(not(feature = "verif"))]
                 Ok(file) => Some(BufWriter::new(file)),
                 Err(err) => {
                     ::log::error!(
@@ -168,6 +175,9 @@ impl TorrentMaps {
             } else {
                 drop(w);
 
+                #[cfg(feature = "verif")]
+                aquatic_common::verif_fault_basic!("udp.export.flushed");
+
                 if let Err(err) = ::std::fs::rename(
                     config.scrape_exports.tmp_path(),
                     &config.scrape_exports.path,
@@ -178,6 +188,9 @@ impl TorrentMaps {
                         err
                     );
                 }
+
+                #[cfg(feature = "verif")]
+                aquatic_common::verif_fault_basic!("udp.export.renamed");
             }
         }
     }
@@ -405,6 +418,9 @@ impl<I: Ip> TorrentMapShards<I> {
                                 err
                             );
                         }
+
+                        #[cfg(feature = "verif")]
+                        aquatic_common::verif_fault_basic!("udp.export.line");
                     }
                 }
 
